@@ -19,6 +19,11 @@ What is EXPLORED, not proved (reported separately in ctx.explored)
     binary64 within REL_TOL).
   * graphs larger than the oracle's reach (15..20 nodes) from the real decoders: an independent Python bitmask DP.
   * float arithmetic inside weight_to_int_fn (the float quotient/product are inputs of the model).
+Weight laws with a huge dynamic range inside one graph (RANGE_KINDS; part_range): a backend that prepares the weights
+(scaling / rounding to integers at ~1e-9 of the maximum, as the Blossom V path does) returns a perfect but non-minimum
+matching exactly there; the float allowance REL_TOL is therefore tied to binary64 noise (1e-12 * n * max|w|), not to 1e-9.
+The failing-input search adds dynamic-range variants of the recorded graph (one pair re-written with a 1e10 / 1e12
+penalty) and a fixed family of small graphs of every weight law.
 LEVEL = 'proof' refers to the wrapper + oracle theorems only.
 """
 import itertools
@@ -29,7 +34,10 @@ from qv import core
 from qv.core import rat
 
 LEVEL = 'proof'
-REL_TOL = 1e-9
+REL_TOL = 1e-12               # float noise allowance relative to n * max|w| (about 4500 machine epsilons; the networkx
+                               # backend was observed to return an exactly minimal matching on every probe, also for
+                               # weights spanning 18 decades) — small enough that a backend which quantises the weights
+                               # at 1e-9 of the maximum (as the Blossom V preparation does) is told from float noise
 ORACLE_MAX_NODES = 14          # (n-1)!! leaves of the verified oracle on a complete graph: 135135 at n = 14
 DP_MAX_NODES = 20
 
@@ -37,9 +45,12 @@ RULE = ('(a) random insertion sequences into the real SimpleGraph (nodes: ints, 
         'both orientations, same-orientation overwrite, reversed and triple re-insertion, self loops): dict contents in '
         'order compared exactly with the model; (b) graphs with a planted perfect matching, 2..14 nodes (16 in '
         'thorough), complete / sparse / planted+few, weights int / dyadic float / zero / negative / tied / big int / '
-        'general float, random insertion order and orientation with re-insertions: the real gt.mwpm result is checked by '
+        'general float, and weight laws with a huge dynamic range inside ONE graph (penalty edges 1e6..1e12, positive '
+        'or negative, int or float, next to dyadic fractions / small ints / floats 1e-12.5..1e-6 of the penalty / a third '
+        'nested scale / magnitudes log-uniform over 18 decades), random insertion order and orientation with '
+        're-insertions: the real gt.mwpm result is checked by '
         'the Lean driver (isPerfectMatching on the real output, exact weight = verified minPM; general floats within '
-        'rel. 1e-9); (c) the arguments the wrapper hands to networkx (negated weights, maxcardinality) captured by '
+        '1e-12 * n * max|w|); (c) the arguments the wrapper hands to networkx (negated weights, maxcardinality) captured by '
         'monkeypatching and compared with the model, empty graph => empty set; (d) graphs built by the real '
         'PlanarMWPM/PlanarCMWPM/ToricMWPM/RotatedPlanarSMWPM/RotatedToricSMWPM decoders on random small syndromes, '
         'captured at gt.mwpm, same check; (e) weight_to_int_fn branch + rounding with blossom5.infty patched. '
@@ -223,15 +234,51 @@ def gen_weight(rng, kind):
     return gen_weight(rng, rng.choice(WKINDS[:-1]))
 
 
+# weight laws with a huge dynamic range INSIDE one graph (drawn per graph, not per edge): penalty edges of 1e6 … 1e12
+# next to small weights whose differences are far below 1e-9 of the maximum
+RANGE_KINDS = ['range-dyadic', 'range-float', 'range-mixed', 'range-neg', 'range-log', 'range-2scale']
+
+
+def weight_sampler(rng, kind):
+    """per-graph weight law: returns a 0-ary function drawing one weight"""
+    if kind not in RANGE_KINDS:
+        return lambda: gen_weight(rng, kind)
+    k = rng.uniform(6, 12)
+    pen_int = rng.choice([10 ** round(k), 2 ** round(k * 3.3219), rng.randint(10 ** 6, 10 ** 12)])
+    p_pen = rng.choice([0.1, 0.25, 0.5])
+    if kind == 'range-dyadic':     # exact in binary64: integer penalties (as int or float), dyadic fractions
+        as_float = rng.random() < 0.5
+        return lambda: ((float(pen_int) if as_float else pen_int) * rng.choice([1, 1, 2, 3]) if rng.random() < p_pen
+                        else rng.randint(0, 64) / rng.choice([2, 4, 8, 16]))
+    if kind == 'range-mixed':      # small ints next to a non-integral penalty, or integer penalties next to fractions
+        if rng.random() < 0.5:
+            return lambda: (pen_int + 0.5 if rng.random() < p_pen else rng.randint(0, 5))
+        return lambda: (pen_int if rng.random() < p_pen else rng.choice([rng.randint(0, 9), rng.randint(0, 9),
+                                                                         rng.randint(0, 40) / 4]))
+    pen = 10.0 ** k
+    small = pen * 10.0 ** rng.uniform(-12.5, -6)     # scale of the small weights: 1e-12.5 … 1e-6 of the penalty
+    if kind == 'range-float':
+        return lambda: (pen * rng.uniform(0.5, 1.0) if rng.random() < p_pen else
+                        rng.choice([small * rng.random(), small * rng.random(), 0.0, small * 0.1 * rng.randint(1, 9)]))
+    if kind == 'range-neg':        # huge NEGATIVE weights (edges forced into the matching) next to fractions of either sign
+        return lambda: (-pen * rng.uniform(0.5, 1.0) if rng.random() < p_pen else small * rng.uniform(-1.0, 1.0))
+    if kind == 'range-2scale':     # three nested scales: penalty, unit scale, and corrections far below the unit scale
+        tiny = small * 10.0 ** rng.uniform(-6, -2)
+        return lambda: (pen if rng.random() < p_pen else small * rng.randint(0, 3) + tiny * rng.randint(0, 9))
+    # range-log: magnitudes log-uniform over 18 decades, occasional negatives
+    return lambda: rng.choice([1, 1, 1, -1]) * 10.0 ** rng.uniform(-6, 12)
+
+
 def exact_kind(kind, ops):
     """are all partial sums exact in binary64?  (ints below 2**53/16, dyadics with denominators up to 16)"""
-    if kind in ('float', 'mixed'):
+    if kind in ('float', 'mixed') or kind in RANGE_KINDS:
         return all(fr(w).denominator <= 16 and abs(w) < 2 ** 44 for _, _, w in ops)
     return True
 
 
-def gen_planted(rng, n, shape, wkind):
+def gen_planted(rng, n, shape, wkind, draw=None):
     """edge list (i, j, w) on nodes 0..n-1 containing a planted perfect matching"""
+    draw = draw or weight_sampler(rng, wkind)
     perm = list(range(n)); rng.shuffle(perm)
     planted = [frozenset((perm[2 * i], perm[2 * i + 1])) for i in range(n // 2)]
     pairs = set(planted)
@@ -252,20 +299,21 @@ def gen_planted(rng, n, shape, wkind):
     out = []
     for p in sorted(pairs, key=sorted):
         a, b = sorted(p)
-        out.append((a, b, gen_weight(rng, wkind)))
+        out.append((a, b, draw()))
     rng.shuffle(out)
     return out
 
 
-def gen_ops(rng, edges, wkind, reinsert):
+def gen_ops(rng, edges, wkind, reinsert, draw=None):
     """insertion sequence for the undirected weighted edges; with re-insertions the LAST write carries the edge's
     weight and earlier writes carry decoys chosen to change the optimum if they survived"""
     ops = []
+    draw = draw or weight_sampler(rng, wkind)
     for a, b, w in edges:
         if rng.random() < 0.5:
             a, b = b, a
         r = rng.random() if reinsert else 1.0
-        decoy = lambda: gen_weight(rng, wkind) + rng.choice([-1, 1]) * rng.choice([1, 50, 1000])  # noqa: E731
+        decoy = lambda: draw() + rng.choice([-1, 1]) * rng.choice([1, 50, 1000])  # noqa: E731
         if r < 0.12:      # reversed re-insertion with a different weight
             ops.append([(b, a, decoy()), (a, b, w)])
         elif r < 0.2:     # same orientation overwrite
@@ -404,7 +452,8 @@ def part_build(ctx):
         n = rng.choice([1, 2, 2, 3, 3, 4, 5, 8])
         nk = rng.choice(['int', 'tuple', 'obj', 'mixed'])
         nodes = make_nodes(rng, n, nk)
-        wk = rng.choice(WKINDS)
+        wk = rng.choice(WKINDS + RANGE_KINDS[:2])
+        draw = weight_sampler(rng, wk)
         ops = []
         for _ in range(rng.choice([0, 1, 2, 3, 5, 8, 13, 30])):
             a = rng.randrange(n)
@@ -412,7 +461,7 @@ def part_build(ctx):
             if ops and rng.random() < 0.35:   # revisit an earlier pair, often reversed
                 a0, b0, _ = rng.choice(ops)
                 a, b = (b0, a0) if rng.random() < 0.6 else (a0, b0)
-            ops.append((a, b, gen_weight(rng, wk)))
+            ops.append((a, b, draw()))
         g = real_build(ops, nodes)
         items = real_items(g, nodes)
         impl = graph_wire(items) if items is not None else 'bad-keys'
@@ -439,12 +488,13 @@ def part_build(ctx):
 
 def one_planted(ctx, n, shape, wk, nk, reinsert, tag):
     rng = ctx.rng
-    edges = gen_planted(rng, n, shape, wk)
-    ops = gen_ops(rng, edges, wk, reinsert)
+    draw = weight_sampler(rng, wk)
+    edges = gen_planted(rng, n, shape, wk, draw)
+    ops = gen_ops(rng, edges, wk, reinsert, draw)
     nodes = make_nodes(rng, n, nk)
     g = real_build(ops, nodes)
     meta = {'part': tag, 'ops': [[a, b, str(fr(w))] for a, b, w in ops], 'n': n, 'nodes': nk, 'shape': shape,
-            'wkind': wk}
+            'wkind': wk, 'ops_repr': [[a, b, repr(w)] for a, b, w in ops]}
     with NxCapture() as cap:
         try:
             mates = run_mwpm(g)
@@ -494,6 +544,19 @@ def part_planted(ctx):
         if n >= 16 and shape == 'complete':
             shape = 'sparse'
         one_planted(ctx, n, shape, rng.choice(WKINDS), rng.choice(['tuple', 'obj']), rng.random() < 0.6, 'planted')
+
+
+def part_range(ctx):
+    """graphs whose weights span a huge dynamic range (RANGE_KINDS): the monitor `weight of the returned matching =
+    verified minPM` (exact for the dyadic / integer laws, within REL_TOL * n * max|w| otherwise)"""
+    rng = ctx.rng
+    for it in range(ctx.scale(900, 9000)):
+        n = rng.choice([4, 4, 4, 6, 6, 6, 8, 8, 10])
+        if it % 40 == 39:
+            n = rng.choice([12, 14])
+        shape = rng.choice(['complete', 'complete', 'sparse', 'few', 'path'])
+        one_planted(ctx, n, shape, RANGE_KINDS[it % len(RANGE_KINDS)], rng.choice(['int', 'tuple', 'obj', 'mixed']),
+                    rng.random() < 0.4, 'range')
 
 
 def part_exhaustive4(ctx):
@@ -709,6 +772,7 @@ def run(ctx):
     part_empty(ctx)
     part_build(ctx)
     n1 = ctx.evaluations
+    part_range(ctx)
     part_planted(ctx)
     n2 = ctx.evaluations
     part_decoders(ctx)
@@ -770,16 +834,56 @@ def parse_ops(meta):
     return [(int(a), int(b), Fraction(w)) for a, b, w in meta['ops']]
 
 
+def typed_ops(d):
+    """the insertion sequence of a recorded input with the Python number types the real code saw (int vs float matters
+    to backends that prepare integer and non-integer weights differently): from 'ops_repr' when recorded"""
+    import re
+    if d.get('ops_repr'):
+        return [(int(a), int(b), int(w) if re.fullmatch(r'-?\d+', w) else float(w)) for a, b, w in d['ops_repr']]
+    return float_ops([(int(a), int(b), Fraction(w)) for a, b, w in d['ops']])
+
+
 def float_ops(ops):
     """weights back as the Python numbers the real code would see (ints stay ints, others floats)"""
     return [(a, b, int(w) if w.denominator == 1 else float(w)) for a, b, w in ops]
 
 
+def found_ops(v, r):
+    return {'what': 'gt.mwpm on the graph built by this insertion sequence: ' + r[0],
+            'ops': [[a, b, str(Fraction(w))] for a, b, w in v],
+            'ops_repr': [[a, b, repr(w)] for a, b, w in v],
+            'returned': r[1] if isinstance(r[1], str) else mates_wire(r[1]),
+            'recipe': 'g = gt.SimpleGraph(); g.add_edge(n[a], n[b], w) for each op in order; gt.mwpm(g)'}
+
+
+_STD = {}
+
+
+def search_std():
+    """a fixed family of small graphs (4..8 nodes, every weight law incl. the huge-dynamic-range ones) on which the
+    property is evaluated when the recorded input and its near variants do not fail; evaluated once per run"""
+    if 'r' not in _STD:
+        import random
+        rng = random.Random(20240613)
+        _STD['r'] = None
+        for it in range(600):
+            wk = (RANGE_KINDS + WKINDS)[it % (len(RANGE_KINDS) + len(WKINDS))]
+            n = rng.choice([4, 4, 6, 8])
+            draw = weight_sampler(rng, wk)
+            edges = gen_planted(rng, n, rng.choice(['complete', 'complete', 'sparse', 'few']), wk, draw)
+            ops = [(a, b, w) for a, b, w in edges]
+            r = eval_property_on_ops(ops)
+            if r and r[0]:
+                _STD['r'] = found_ops(ops, r)
+                break
+    return _STD['r']
+
+
 def search(m):
     meta = m.get('meta') or {}
     part = meta.get('part')
-    if part in ('planted', 'nxin', 'build') and 'ops' in meta:
-        ops = float_ops(parse_ops(meta))
+    if part in ('planted', 'range', 'nxin', 'build') and 'ops' in meta:
+        ops = typed_ops(meta)
         variants = [ops]
         # near variants: re-write every pair stored in both orientations (or at all) with a weight that moves the optimum
         pairs = []
@@ -790,6 +894,11 @@ def search(m):
             for w in (-1000, 1000):
                 variants.append(ops + [(a, b, w)])
                 variants.append(ops + [(b, a, 1), (a, b, w)])
+        # dynamic-range variants: one pair re-written with a penalty of 1e10 / 1.5e12 (float or int), all other weights
+        # as recorded (a break in the weight preparation shows when the recorded weights are tiny next to it)
+        for a, b in pairs[:12]:
+            for w in (1e10, 1.5e12, 10 ** 12, -1e10):
+                variants.append(ops + [(a, b, w)])
         if part == 'build':
             # complete the touched nodes to a graph with a perfect matching so that the property applies
             n = max([max(a, b) for a, b, _ in ops] + [0]) + 1
@@ -800,11 +909,8 @@ def search(m):
         for v in variants:
             r = eval_property_on_ops(v)
             if r and r[0]:
-                return {'what': 'gt.mwpm on the graph built by this insertion sequence: ' + r[0],
-                        'ops': [[a, b, str(Fraction(w))] for a, b, w in v],
-                        'returned': r[1] if isinstance(r[1], str) else mates_wire(r[1]),
-                        'recipe': 'g = gt.SimpleGraph(); g.add_edge(n[a], n[b], w) for each op in order; gt.mwpm(g)'}
-        return None
+                return found_ops(v, r)
+        return search_std()
     if part == 'decoder':
         f = dict(x.split('=') for x in m['model'].split(' ') if '=' in x)
         if f.get('pm') == '0' or f.get('opt') == '0':
@@ -823,7 +929,7 @@ def replay(ctx, path):
         ce = v.get('counterexample') or {}
         inp = ce.get('input') if 'input' in ce else ce
         if isinstance(inp, dict) and inp.get('ops'):
-            ops = float_ops([(int(a), int(b), Fraction(w)) for a, b, w in inp['ops']])
+            ops = typed_ops(inp)
             r = eval_property_on_ops(ops)
             print('replay ops ->', r)
             if r and r[0]:
